@@ -633,6 +633,21 @@ def starts(a, p):
     return a[:len(p)] == p
 
 
+def append_family(threaded, gs0, sto0, sto, text):
+    """family tag of an 'appended exactly once' violation.  'threaded-nothing-loaded' is exactly the shape
+    of finding C14-F3: a ThreadedHistory of which nothing is loaded yet, the accepted text equals the newest
+    STORED entry and the only thing wrong is that it was stored once more."""
+    if threaded and gs0 == [] and sto0 and sto0[-1] == text and sto == sto0 + [text]:
+        return "threaded-nothing-loaded"
+    if threaded:
+        return "threaded-append"
+    return "history-not-loaded" if gs0 != sto0 else "history-loaded"
+
+
+def text_has_passing_cursor(rules, text):
+    return any(verdict(rules, text, c) is None for c in range(len(text) + 1))
+
+
 def oracle_case(case, results):
     """yields (clause, family, opname, detail) for every violated clause"""
     storage, ehs0, vwt, keep, rules, ops = case[:6]
@@ -703,16 +718,32 @@ def oracle_case(case, results):
                 if wi != b0[3] or text1 != b0[2][b0[3]] or wl != b0[2]:
                     yield ("back_forth: back %d then forward %d from entry %d of %d ended at entry %d" % (kk, kk, b0[3], len(b0[2]), wi),
                            "count=0" if kk == 0 else "count>=1", "history_backward+history_forward", (b0[2], b0[3], kk, wi))
+        # --- ... and with prefix search: the starting entry matches its own freshly captured prefix, so back k /
+        # forward k over prefix-matching entries returns to it, when k such entries exist before it
+        if single and last and k == 2 and last[0][0] == 1 and last[0][1] == op[1] and st == 0 and ehs and ehs_before:
+            b0 = last[1]
+            kk = op[1]
+            if b0[5] is None and kk >= 0 and 0 <= b0[3] < len(b0[2]) and last[2][0] == 0 and 0 <= b0[4] <= len(b0[2][b0[3]]):
+                p0 = b0[2][b0[3]][:b0[4]]
+                nmatch = sum(1 for e in b0[2][:b0[3]] if starts(e, p0))
+                if kk <= nmatch and (wi != b0[3] or text1 != b0[2][b0[3]] or wl != b0[2]):
+                    yield ("back_forth: with prefix search %r, back %d then forward %d from entry %d of %d ended at entry %d"
+                           % (unS(p0), kk, kk, b0[3], len(b0[2]), wi),
+                           "prefix-search", "history_backward+history_forward", (b0[2], b0[3], kk, wi))
         # --- accept
         if single and k == 15 and st == 0:
             if vst0 == 0:
                 v = verdict(rules, unS(text0), cur0)
             else:
                 v = None if vst0 == 1 else "stale"
-            # a cached VALID verdict must be one for this text ("succeeds only if the validator passes");
-            # judged only for validators that do not look at the cursor, which may move under a cached verdict
-            if vst0 == 1 and ret is not None and rules_ignore_cursor(rules) and verdict(rules, unS(text0), cur0) is not None:
-                yield ("accept: input accepted although the validator rejects it (stale VALID verdict)", "accepted-invalid-stale", name, (text0,))
+            # a cached VALID verdict must be one for the current document, cursor included ("succeeds only if
+            # the validator passes").  'stale-valid-cursor-moved' names the shape of the repaired finding
+            # C14-F4 (validator looks at the cursor and passes this text at another cursor position); it is a
+            # violation like any other.
+            if vst0 == 1 and ret is not None and verdict(rules, unS(text0), cur0) is not None:
+                fam4 = ("stale-valid-cursor-moved" if (not rules_ignore_cursor(rules)) and text_has_passing_cursor(rules, unS(text0))
+                        else "accepted-invalid-stale")
+                yield ("accept: input accepted although the validator rejects it (stale VALID verdict)", fam4, name, (text0, cur0))
             if v is not None:
                 if ret is not None:
                     yield ("accept: input accepted although the validator rejects it", "accepted-invalid", name, (text0,))
@@ -729,8 +760,7 @@ def oracle_case(case, results):
                 skip = (not text0) or (sto0 and sto0[-1] == text0)
                 exp = sto0 if skip else sto0 + [text0]
                 if sto != exp:
-                    fam = ("threaded-nothing-loaded" if threaded and gs0 == [] else
-                           "history-not-loaded" if gs0 != sto0 else "history-loaded")
+                    fam = append_family(threaded, gs0, sto0, sto, text0)
                     yield ("accept: history must become %r, got %r (text %r; appended exactly once unless empty or equal to the newest entry)"
                            % ([unS(x) for x in exp], [unS(x) for x in sto], unS(text0)), fam, name, (sto0, sto))
                 if not keep and (wl != [[]] or wi != 0 or cur != 0):
@@ -742,8 +772,7 @@ def oracle_case(case, results):
             skip = (not t) or (sto0 and sto0[-1] == t)
             exp = sto0 if skip else sto0 + [t]
             if sto != exp:
-                fam = ("threaded-nothing-loaded" if threaded and gs0 == [] else
-                           "history-not-loaded" if gs0 != sto0 else "history-loaded")
+                fam = append_family(threaded, gs0, sto0, sto, t)
                 yield ("accept: history must become %r, got %r (text %r; appended exactly once unless empty or equal to the newest entry)"
                        % ([unS(x) for x in exp], [unS(x) for x in sto], unS(t)), fam, name, (sto0, sto))
         # --- reset: clean entry list; after full population = history ++ [new]
@@ -821,7 +850,7 @@ def rand_buffer_op(rng, loaded):
             return [k, rand_count(rng)]
         return [k, rand_count(rng), rng.choice([0, 0, 1])]
     if r < 0.40:
-        return [3, rng.choice([0, 1, 2, 3, 4, 9])]
+        return [3, rng.choice([0, 1, 2, 3, 4, 9, -1, -5])]
     if r < 0.43:
         return [6]
     if r < 0.58:
@@ -913,6 +942,14 @@ def gen_buffer_cases(chk):
                     pre = [[], [[17]], [[17], [19]]][load]
                     add("accept_append", [S(x) for x in hh], 0, 0, keep, None,
                         pre + [[7, S(text)], [15], [16, S(""), 0, 0], [17], [19], [4, 1, 0], [15]])
+    # 3b. a validator that looks at the cursor: verdict cached at one cursor position, accept at another
+    for pos in (0, 1, 2):
+        rules = [[[6, pos], [0, pos]]]            # rejects when the cursor is at `pos`
+        for text in ("ab", "a"):
+            for vwt in (0, 1):
+                for mv in ([11, 0], [11, 1], [11, 2], [12, 1], [13, 1]):
+                    add("cursor_dependent_validator", [], 0, vwt, 1, rules,
+                        [[7, S(text)], [14, 0], mv, [15], [16, S(""), 0, 0], [7, S(text)], mv, [14, 0], [15]])
     # 4. population interleaved with navigation (every placement of the population steps)
     for hh in (["a", "b"], ["a", "ab", "b"]):
         navs = [[4, 1, 0], [4, 1, 0], [5, 1, 0], [1, 2]]
@@ -1135,6 +1172,8 @@ def gen_session_scripts(chk):
                     [("", [], [("up", None), ("up", None), ("c-up", 0), ("c-down", 0), ("enter", None)])]))
     scripts.append(([S("ls")], 0, 1, None, [("", [("up", None)], [("up", None), ("enter", None)]),
                                              ("", [], [("up", None), ("enter", None)])]))
+    # validate-while-typing with a validator that rejects cursor position 0: type, move left, Enter (was finding C14-F4)
+    scripts.append(([], 0, 1, [[[6, 0], [0, 0]]], [("", [], [("a", None), ("left", None), ("enter", None), ("right", None), ("enter", None)])]))
     n = 900 if thorough else 150
     for _ in range(n):
         storage = rand_storage(rng, 4)
@@ -1268,7 +1307,8 @@ def main(tier):
             chk.violation("oracle", "%s | %s" % (clause, describe_case(case)),
                           {"clause": clause.split(":")[0], "family": fam, "op": opname},
                           {"case": wire(case), "level": levels[i], "clause": clause, "detail": detail,
-                           "how": "harness/c14.py impl_buffer_case (real Buffer + gated InMemoryHistory; level buffer-slow: gated validate_async) replays the case"})
+                           "how": "./check --replay re-runs the case at its level (buffer*: real Buffer + gated history, "
+                                  "session*: real PromptSession, keys rebuilt from the operations)"})
         if i % 499 == 0:
             chk.sample({"level": levels[i], "case": describe_case(case), "last_observed": res[-1] if res else None})
     dist["ops"] = opcount
@@ -1320,22 +1360,86 @@ def main(tier):
         "1-4 consecutive prompt_async() calls on one PromptSession. non-trivial = some observed state has working_index != 0 or "
         "more than one working line; distinct by hash of the whole case. Plus a slow-validator family at buffer level (validate_async gated, validations in flight across edits/navigation/accept)." % (4 if chk.tier == "thorough" else 3, POSITIONS))
     chk.assumptions += [
-        "completion state and selection state are absent (auto_up/auto_down take their history branch); read-only buffers, undo stack and events are outside the model",
+        "completion state is absent (auto_up/auto_down never take their complete_previous/complete_next branch); selection state is a flag; read-only buffers, undo stack, events, yank-nth-arg/yank-last-arg are outside the model",
         "a validate-while-typing run scheduled by an operation completes before the next operation unless that operation is flagged deferred (type-ahead batches; slow-validator family where validate_async waits at a gate while later operations run); thread-level asynchrony (ThreadedValidator) is outside",
-        "history backends other than InMemoryHistory (FileHistory, ThreadedHistory) are outside the model; the gated history used at buffer level delegates every item to History.load()",
+        "history backends: the model's storage is an abstract list (exact round trip); InMemoryHistory and a real FileHistory (storage = what a new FileHistory reads back) are run against it; the gated histories delegate every item to History.load()",
+        "ThreadedHistory model: the loader thread's snapshot of the backend is taken when load() first runs, and thread step / consumer chunk / append_string are atomic and occur in the order the harness chooses (a semaphore in the inner load_history_strings and quiescence waits enforce that order on the real object); the real generator takes its snapshot a little later, inside the thread, so an append racing with the thread's start is not explored (C13's subject)",
+        "theorems about navigation/edits/prefix/back-forth/reset are proved for the InMemoryHistory/FileHistory kind (thr = false); for ThreadedHistory the proved statements are coherence, append-once once anything is loaded, population safety and the cached-verdict invariant; the other clauses are checked for it by correspondence and oracle only",
         "the validator is an arbitrary function (text, cursor) -> option position in the theorems; the harness instantiates it with rule lists",
         "vi-mode keys are exercised only through Buffer.auto_up/auto_down(go_to_start_of_line_if_history_changes=True) and go_to_history at buffer level",
     ]
     return chk.finish()
 
 
+def infer_level(w, given=None):
+    """level of a replayed case: recorded by oracle violations; for model/implementation differences it is
+    inferred (a session case starts with an unobserved reset; the 7th element says ThreadedHistory)"""
+    thr = len(w) > 6 and bool(w[6])
+    if given in ("buffer", "buffer-slow", "buffer-file", "buffer-threaded", "session", "session-threaded"):
+        return given
+    sessionlike = bool(w[5]) and w[5][0][0] == 2 and w[5][0][1][0] == 16
+    if sessionlike:
+        return "session-threaded" if thr else "session"
+    return "buffer-threaded" if thr else "buffer"
+
+
+KEY_OF_OP = {4: "up", 5: "down", 1: "c-up", 2: "c-down", 12: "left", 13: "right"}
+
+
+def keys_of_op(o):
+    k = o[0]
+    if k in KEY_OF_OP:
+        return [(KEY_OF_OP[k], None if o[1] == 1 else o[1])]
+    if k == 8:
+        return [("backspace", None if o[1] == 1 else o[1])]
+    if k == 9:
+        return [("backspace", -o[1])]
+    if k == 15:
+        return [("enter", None)]
+    if k == 3 and o[1] == 0:
+        return [("m-<", None)]
+    if k == 6:
+        return [("m->", None)]
+    if k == 26:
+        return [("@thread", None)]
+    if k == 7:
+        t = unS(o[1])
+        if len(t) > 1 and len(set(t)) == 1:
+            return [(t[0], len(t))]
+        return [(ch, None) for ch in t]
+    raise ValueError("operation %r has no key" % (o,))
+
+
+def script_from_case(w):
+    """rebuild the key script of a session-level case from its operation list"""
+    prompts = []
+    cur = None
+    for f, o in w[5]:
+        if o[0] == 16:
+            cur = [unS(o[1]), [], [], False]
+            prompts.append(cur)
+        elif o[0] in (17, 19):
+            if cur is not None:
+                cur[3] = True
+        elif cur is not None:
+            (cur[2] if cur[3] else cur[1]).extend(keys_of_op(o))
+    rules = w[4][0] if w[4] else None
+    return (w[0], w[1], w[2], rules, [(d, ta, live) for d, ta, live, _ in prompts])
+
+
 def replay(data):
     rep = data["replay"]
     w = rep["case"]
-    case = [w[0], w[1], w[2], w[3], (w[4][0] if w[4] else None), w[5]]
+    lvl = infer_level(w, rep.get("level"))
     runner = Runner()
-    lvl = rep.get("level", "buffer")
-    _, res = run_impl(runner, lvl if lvl in ("buffer", "buffer-slow", "buffer-file") else "buffer", case)
+    if lvl.startswith("session"):
+        script = script_from_case(w)
+        print("level %s: keys rebuilt from the operations: %r" % (lvl, script[4]))
+        case, res = run_impl(runner, lvl, script)
+    else:
+        case = [w[0], w[1], w[2], w[3], (w[4][0] if w[4] else None), w[5]] + ([w[6]] if len(w) > 6 else [])
+        print("level %s" % lvl)
+        _, res = run_impl(runner, lvl, case)
     runner.close()
     cleanup_history_files()
     print(describe_case(case))
